@@ -13,7 +13,8 @@ from harness import util
 THEOREMS = ['C07_allgather_twoway_correct', 'C07_reducescatter_twoway_correct', 'C07_odd_mesh_rejected',
             'C07_parallel_cumsum_per_device', 'C07_parallel_cumsum_correct', 'C07_stack_unstack_sharded',
             'C07_sharded_dlon_correct', 'C07_modal_shape_divisible', 'C07_shapes_divisible',
-            'C07_vertical_pad_crop', 'C07_einsum_subscripts_sound', 'C07_hyps_satisfiable']
+            'C07_vertical_pad_crop', 'C07_einsum_subscripts_sound', 'C07_allgather_matches_source',
+            'C07_reducescatter_matches_source', 'C07_cumsum_matches_source', 'C07_hyps_satisfiable']
 LEVEL = 'proof'
 LEVEL_TEXT = ('machine-checked theorems (Coq) for every field, EVERY ring size n = 1 or even (not only <= 8 devices), '
               'every chunk size and all data: two-way all-gather matmul and matmul/reduce-scatter (fori_loop invariant) '
